@@ -1,6 +1,12 @@
 (* model driver: mirrors harness/src/main.rs — same case lines in, same observation syntax out.
    Families live in fam_<x>.ml and register themselves in Reg (build.sh links driver.ml last). *)
+exception Line_timeout
+(* a case the extracted model cannot evaluate within MODEL_LINE_TIMEOUT seconds (multi-kilobyte
+   numeric operands: the model's arithmetic is Coq's binary-positive arithmetic) is reported as
+   `skip`, i.e. not compared; the check counts skips in its evidence *)
+let line_limit = try int_of_string (Sys.getenv "MODEL_LINE_TIMEOUT") with _ -> 20
 let () =
+  Sys.set_signal Sys.sigalrm (Sys.Signal_handle (fun _ -> raise Line_timeout));
   let fam = Sys.argv.(1) in
   let f = match Hashtbl.find_opt Reg.table fam with
     | Some f -> f
@@ -10,11 +16,14 @@ let () =
       let line = String.trim (input_line stdin) in
       if line <> "" && line.[0] <> '#' then begin
         let t = Array.of_list (Stdlib.List.filter (fun s -> s <> "") (String.split_on_char ' ' line)) in
-        let r = try f t with
+        ignore (Unix.alarm line_limit);
+        let r = try let r = f t in ignore (Unix.alarm 0); r with
+          | Line_timeout -> "skip model-timeout"
           | Stack_overflow -> "crash stack-overflow"
           | Failure m -> "crash failure " ^ m
           | Not_found -> "crash not-found"
           | Invalid_argument m -> "crash invalid-arg " ^ m in
+        ignore (Unix.alarm 0);
         print_string r; print_newline ()
       end
     done
